@@ -54,4 +54,44 @@ def natToF64 (m : Nat) : Nat :=
 def i64ToF64 (i : Int) : Nat :=
   if i ≥ 0 then natToF64 i.toNat else 2 ^ 63 + natToF64 (-i).toNat
 
+/-! ### Exact value, `trunc`, `as i64` (added for the exact Int64/Float64 comparison of
+`OrderableValue`) -/
+
+/-- significand, with the implicit leading bit of a normal number -/
+def sig (b : Nat) : Nat := if expField b = 0 then fracField b else 2 ^ 52 + fracField b
+
+/-- `|value| · 2^1074` as a natural number: every finite `f64` is an integer multiple of `2^-1074`
+(`e - 1` is truncated subtraction: subnormals and the first binade share the scale `2^0`).
+The formula is also evaluated on infinity / NaN patterns, where it only serves monotonicity. -/
+def absScaled (b : Nat) : Nat := sig b * 2 ^ (expField b - 1)
+
+/-- the exact value of a finite pattern, times `2^1074` -/
+def scaled (b : Nat) : Int := if signBit b = 1 then -(absScaled b : Int) else (absScaled b : Int)
+
+/-- `f.trunc().to_bits()`: round toward zero to an integral float. Below 1 in magnitude the result
+is a zero of the same sign; from `2^52` on (and for infinities / NaN) the value is returned as is;
+in between the fractional mantissa bits are cleared. -/
+def truncBits (b : Nat) : Nat :=
+  let e := expField b
+  if e < 1023 then signBit b * 2 ^ 63
+  else if e ≥ 1075 then b
+  else b - b % 2 ^ (1075 - e)
+
+/-- `f as i64`: NaN gives 0, otherwise truncate toward zero and saturate. -/
+def f64ToI64 (b : Nat) : Int :=
+  if isNaN b then 0
+  else
+    let t : Int := if signBit b = 1 then -((absScaled b / 2 ^ 1074 : Nat) : Int) else ((absScaled b / 2 ^ 1074 : Nat) : Int)
+    if t < -(2 ^ 63 : Int) then -(2 ^ 63 : Int) else if t > 2 ^ 63 - 1 then 2 ^ 63 - 1 else t
+
+/-- `a >= b` on `f64` (false when either side is NaN) -/
+def fge (a b : Nat) : Bool := !isNaN a && !isNaN b && decide (key b ≤ key a)
+
+/-- `a < b` on `f64` (false when either side is NaN) -/
+def flt (a b : Nat) : Bool := !isNaN a && !isNaN b && decide (key a < key b)
+
+/-- bits of `9223372036854775808.0_f64` (`2^63`) and of its negation -/
+def twoPow63 : Nat := 0x43E0000000000000
+def negTwoPow63 : Nat := 0xC3E0000000000000
+
 end Grafeo.F64
